@@ -1093,9 +1093,31 @@ def nObjAsStored : Neg :=
              | _ => none },
     bits := [true], why := .retInternal 6 }
 
+/-- seeded C12-9: `_stats_update` builds `_best_elite` from the best row of the batch instead of reading it
+back from the store; in `add_single` that row is a view of the caller's array when no conversion is needed. -/
+def nBestFromBatch : Neg :=
+  { E := { name := "S9.best_elite_from_batch_row", pyfn := "ArchiveBase.add_single / _stats_update(new_best_entry) (seeded)",
+           args := caller 4, nself := nSelf, nbits := 1,
+           prog := fun
+             | [c] => some
+                 [ .asarray 10 0 c, .view 20 10,  -- validate_single ; np.expand_dims(arr, axis=0)
+                   .view 21 20,                   -- add_info["best_entry"] = {name: arr[item_idx] …}
+                   .view 22 21,                   -- value = np.asarray(new_best_entry[name], dtype=dtype)
+                   .store F.best 22 ]             -- self._best_elite = new_best_elite
+             | _ => none },
+    bits := [false], why := .storeCaller F.best }
+
+/-- seeded C12-10: `GradientOperatorEmitter.tell_dqd` records `self._parents = data["solution"]`. -/
+def nTellDqdKeepsSolution : Neg :=
+  { E := { name := "S10.tell_dqd_keeps_solution", pyfn := "GradientOperatorEmitter.tell_dqd with self._parents = data[\"solution\"] (seeded)",
+           args := caller 7, nself := nSelf, nbits := 1,
+           prog := fun | [c] => some [ .asarray 10 0 c, .store F.emit 10 ] | _ => none },
+    bits := [false], why := .storeCaller F.emit }
+
 def negatives : List Neg :=
   [ nD7, nD10, nD10b, nD15, nD19, nD20, nRetrieveSlice, nDataField, nAdamInplace, nAddKeeps,
-    nXfWritesNew, nRawWrite, nD38cvt, nD38init, nD41, nD36, nObjAsStored ]
+    nXfWritesNew, nRawWrite, nD38cvt, nD38init, nD41, nD36, nObjAsStored,
+    nBestFromBatch, nTellDqdKeepsSolution ]
 
 def Neg.holds (n : Neg) : Bool := n.E.verdict n.bits == some n.why
 
